@@ -63,6 +63,7 @@ func checkC08(r *Run) {
 func checkC11(r *Run) {
 	rng := rand.New(rand.NewSource(r.Seed))
 	runServeD1(r, newServeGen(r, rng), "C11", pick(r, 5*time.Minute, 40*time.Minute))
+	runServeD1(r, newServeGenHost(r, rng), "C11", pick(r, 5*time.Minute, 40*time.Minute))
 	runServeD2(r, rng, "C11")
 	r.assumption("Allow is compared as a set; for 405 with automatic OPTIONS enabled, OPTIONS may additionally be listed")
 }
